@@ -336,6 +336,16 @@ def corner_cases(ctx: Ctx):
                          {h: [[0, "N", 0, 0], [0, "N", 1, 0]] for h in ("EasySingle", "EasyDoubleBass", "EasyDrums")})}
 
 
+    # every string field of [Song] set to a value made of characters that mean something to formatting, slicing
+    # or splitting code (the parse may refuse a chart only with a documented error; a returned chart must render)
+    from cpverif.model import FIELDS
+    for v in [",", ",2018", ", ", '"', "'", " ", "=", " = ", "%", "%s", "{", "}", "{0}", "\\", "\\n", "[", "]", "0", "-1", ".", "..", "/",
+              "//", "#", ";", ":", "*", "?", "a,b", "a=b", "(1988)", "lyric ", "section ", "\t"]:
+        song = [[f[0], '"' + v + '"'] for f in FIELDS if f[2] == "str"] + [["Resolution", "192"]]
+        yield {"text": S.render({"res": 192, "song": song, "sync": base_sync, "events": [[0, v]] if '"' not in v else [],
+                                 "tracks": {"ExpertSingle": [[0, "N", 0, 0]]}})}
+
+
 PARTS: list[Part] = [
     enum_part("corners", corner_cases, check_assembled, {"quick": 1, "thorough": 1}),
     hyp_part("mutations", strat_mutations, check_mutation, {"quick": 900, "thorough": 10000},
